@@ -154,6 +154,14 @@ def run(ctx):
                     disagreements.append(("posixpath:" + r.split("|")[0], r, dec(m), dec(i)))
 
         # ---- 1. direct get_template ------------------------------------------------
+        outside_abs = [os.path.join(os.path.dirname(os.path.realpath(dir_configs[0][0])), "secret.txt")]
+        outside_abs = [p_ for p_ in outside_abs if os.path.exists(p_)] or outside_abs
+        abs_uris = []
+        for p_ in outside_abs:
+            for lead in ["\\", "/\\", "\\\\", "//", "/", "\\/", "/\\/", "\\\\/", "\\/\\/"]:
+                abs_uris.append(lead + p_.lstrip("/"))
+                abs_uris.append(lead + p_)
+        uris = list(uris) + abs_uris
         req, impl, keys = [], [], []
         outside_hits = 0
         found = 0
@@ -179,6 +187,17 @@ def run(ctx):
                         ctx.violation({"dirs": dirs, "uri": u, "filename": fn}, "content of an outside file reached the output", tags=["c09.escape.content"])
                 elif o.startswith("other:"):
                     ctx.violation({"dirs": dirs, "uri": u, "outcome": o}, "lookup raised an undocumented exception", tags=["c09.exception"])
+                # has_template answers for exactly the URIs get_template serves: it must not tell whether a file outside the roots exists
+                if ci == 0 or len(req) % 7 == 0:
+                    from mako.lookup import TemplateLookup as _TL
+                    try:
+                        has = _TL(directories=dirs).has_template(u)
+                    except Exception as e:  # noqa
+                        has = "raised " + type(e).__name__
+                    if has is not o.startswith("found "):
+                        ctx.violation({"dirs": dirs, "uri": u, "has_template": has, "get_template": o.split(" ")[0]},
+                                      "has_template disagrees with get_template (it answers for a URI that resolves outside the configured directories, or hides an inside one)",
+                                      tags=["c09.has_template"])
                 for p in _opened:
                     if not inside(dirs, p):
                         outside_hits += 1
@@ -244,6 +263,22 @@ def run(ctx):
                 # a looked-up plain file is not always a valid parent/namespace; only lookup outcomes are compared
                 pass
             adj = posixpath.join(posixpath.dirname(caller), u) if u[0] != "/" else u
+            # the property's own reading: walking the joined URI component by component, a step above the lookup root means the URI
+            # resolves outside the configured directories, which must raise TemplateLookupException (never be clamped to the root)
+            depth, climbs = 0, False
+            for comp in adj.replace("\\", "/").split("/"):
+                if comp in ("", "."):
+                    continue
+                if comp == "..":
+                    depth -= 1
+                    if depth < 0:
+                        climbs = True
+                        break
+                else:
+                    depth += 1
+            if climbs and o == "ok":
+                ctx.violation({"caller": caller, "tag": tag, "uri": u, "joined": adj, "rendered": (out or "")[:100]},
+                              "a URI that resolves above the lookup root was served instead of raising TemplateLookupException", tags=["c09.escape.clamped"])
             req2.append("adjust|%s|%s" % (enc(u), enc(caller)))
             impl2.append(enc(lk.adjust_uri(u, caller)))
             keys2.append(("adjust", caller, u))
